@@ -13,7 +13,7 @@ import engine  # noqa: E402
 sys.path.insert(0, engine.REPO)
 logging.disable(logging.CRITICAL)
 mod, fn, jobs = pickle.load(sys.stdin.buffer)
-f = getattr(importlib.import_module(mod), fn)
+f = engine._Guarded(getattr(importlib.import_module(mod), fn))
 if len(jobs) > 8:
     import multiprocessing as mp
     from concurrent.futures import ProcessPoolExecutor
